@@ -856,6 +856,8 @@ def c16_plan(pid, tier, seed, t0):
         jobs.append(("hotchurn", [conc, "hotchurn", str([8, 4, 16][k % 3]), str(3000 if tier == "quick" else 10000), str(seed * 91 + k)]))
     for k in range(9 if tier == "quick" else 200):
         jobs.append(("handoff", [conc, "handoff", str([4, 8, 16][k % 3]), str(300 if tier == "quick" else 3000), str(seed * 37 + k)]))
+    for k in range(6 if tier == "quick" else 150):
+        jobs.append(("crowd", [conc, "crowd", str([8, 16, 4][k % 3]), str(40 if tier == "quick" else 300), str(seed * 41 + k)]))
     first_runs = 200 if tier == "quick" else 10000
     for k in range(first_runs):
         spins = rnd.choice([0, 0, 1000, 10000, 100000, 1000000, 3000000])
@@ -929,6 +931,9 @@ def c16_plan(pid, tier, seed, t0):
         "length (0..100 calls) the threads are released together, each compiles its own *_by / map expressions (same shapes and offsets, different "
         "members) through the shared runtime and searches each four times while calling type() on every JSON type and all 26 built-ins in a "
         "thread-specific rotation, and the runtime is swept sequentially afterwards; truth comes from private runtimes used before the round. "
+        "'crowd' runs keep one long-lived worker projecting over 171 elements while 160..640 short-lived threads come and go in waves, each "
+        "projecting over its own 48..307 elements and all of a wave hitting at once a never-seen document whose 19-digit numeric strings go through "
+        "to_number; "
         "'handoff' rounds move ownership between threads: the main thread compiles an expression, long-lived workers search it three times, the main "
         "thread drops it and compiles a same-length text differing in a constant (results known by construction), while every thread also compiles a "
         "60..120-deep multi-select at the same instant; "
@@ -1027,7 +1032,7 @@ def c17_plan(pid, tier, seed, t0):
                 cid, kind = cid + ".big", kind[4:]
             if kind.startswith("names."):
                 cid, kind = cid + ".names", kind[6:]
-            if kind.startswith("deep") or kind.startswith("size") or kind.startswith("shared"):
+            if kind.startswith("deep") or kind.startswith("size") or kind.startswith("shared") or kind.startswith("fsum"):
                 pre, _, kind = kind.partition(".")
                 cid = cid + "." + pre
             if c == "n-default":
